@@ -47,20 +47,20 @@ func c09Span(ctr uint64, nblocks int) (label string, near bool) {
 
 func c09Counter(t *rapid.T) (uint64, string) {
 	switch rapid.IntRange(0, 11).Draw(t, "ctrClass") {
-	case 0:
-		return 0, "ctr=0"
-	case 1:
-		return uint64(rapid.IntRange(1, 40).Draw(t, "ctr")), "ctr=small"
-	case 2, 3:
+	case 0, 1:
 		k := rapid.IntRange(-1, 36).Draw(t, "k")
 		return uint64(1<<32) - uint64(int64(k)), "ctr=2^32-k"
-	case 4, 5:
+	case 2, 3:
 		k := rapid.IntRange(1, 36).Draw(t, "k")
 		return -uint64(k), "ctr=2^64-k"
-	case 6, 7:
+	case 4, 5:
 		hi := rapid.Uint32().Draw(t, "hi")
 		k := rapid.IntRange(-1, 36).Draw(t, "k")
 		return uint64(hi)<<32 - uint64(int64(k)), "ctr=hi*2^32-k"
+	case 6:
+		return 0, "ctr=0"
+	case 7:
+		return uint64(rapid.IntRange(1, 40).Draw(t, "ctr")), "ctr=small"
 	default:
 		return rapid.Uint64().Draw(t, "ctr"), "ctr=random"
 	}
